@@ -188,11 +188,25 @@ func DominatingFacts(b *ssa.BasicBlock) []Fact {
 		t, f := d.Succs[0], d.Succs[1]
 		if t != f {
 			if len(t.Preds) == 1 && t.Dominates(b) {
-				out = append(out, Fact{iff.Cond, true})
+				out = addFact(out, iff.Cond, true)
 			} else if len(f.Preds) == 1 && f.Dominates(b) {
-				out = append(out, Fact{iff.Cond, false})
+				out = addFact(out, iff.Cond, false)
 			}
 		}
+	}
+	return out
+}
+
+// addFact records that cond has the value val, and what that says about x when cond is `!x`.
+func addFact(out []Fact, cond ssa.Value, val bool) []Fact {
+	out = append(out, Fact{cond, val})
+	for i := 0; i < 4; i++ {
+		u, ok := cond.(*ssa.UnOp)
+		if !ok || u.Op != token.NOT {
+			break
+		}
+		cond, val = u.X, !val
+		out = append(out, Fact{cond, val})
 	}
 	return out
 }
